@@ -29,6 +29,8 @@ THEOREMS = [
     "Verif.C04.like_same_timestamps",
     "Verif.C04.like_value_spec",
     "Verif.C04.like_kept_spec",
+    "Verif.C04.like_within_span",
+    "Verif.C04.like_repaired_kept_spec",
     "Verif.C04.repair_spec",
     "Verif.C04.arith_spec",
     "Verif.C04.arith_refused",
